@@ -170,9 +170,9 @@ def part_b_driver(cfg, T, mode):
             x, y = letters[run.choose(len(letters), 'obs', None, 0)]
             if t == fork_at + 1:
                 # a deep copy taken one step earlier is checked while only the ORIGINAL moves on (and vice versa below)
-                fork = _copy.deepcopy(original)
+                fork = choice.safe_copy(original)
                 original.explain_one(dict(x), y)
-                ex = fork
+                ex = fork if fork is not None else original
             else:
                 ex.explain_one(dict(x), y)
             where = f"{type(ex).__name__}[{sc.cfg_desc(cfg)}] ({mode} pass) after call {t + 1}" + \
